@@ -781,11 +781,14 @@ var LibPost = map[string][]string{
 	"strings.IndexByte":                                 {"r0 + 1", "len(p0) - r0 - 1"},
 	"strings.IndexRune":                                 {"r0 + 1", "len(p0) - r0 - 1"},
 	"bytes.IndexRune":                                   {"r0 + 1", "len(p0) - r0 - 1"},
-	"(encoding/base64.Encoding).DecodedLen":             {"r0"},
-	"(*encoding/base64.Encoding).DecodedLen":            {"r0"},
-	"(encoding/base64.Encoding).EncodedLen":             {"r0"},
-	"(*encoding/base64.Encoding).EncodedLen":            {"r0"},
-	"github.com/klauspost/compress/s2.MaxEncodedLen":    {},
+	// Decode writes n <= len(dst) bytes into dst (it panics, like copy into a short slice would not, if dst is too short)
+	"(*encoding/base64.Encoding).Decode":             {"r0", "len(p1) - r0"},
+	"(encoding/base64.Encoding).Decode":              {"r0", "len(p1) - r0"},
+	"(encoding/base64.Encoding).DecodedLen":          {"r0"},
+	"(*encoding/base64.Encoding).DecodedLen":         {"r0"},
+	"(encoding/base64.Encoding).EncodedLen":          {"r0"},
+	"(*encoding/base64.Encoding).EncodedLen":         {"r0"},
+	"github.com/klauspost/compress/s2.MaxEncodedLen": {},
 	// decodedLen returns int(v) for 0 <= v <= 0xffffffff (and 0 with an error)
 	"github.com/klauspost/compress/s2.DecodedLen": {"r0"},
 	// cmsg sizes: align(sizeof(Cmsghdr)) is 12..16 depending on the architecture
